@@ -32,11 +32,12 @@ struct FileCases {
     /// grey-box value substitutions in the XML part: (line, byte start, byte end, replacement literal)
     lits: Vec<(usize, usize, usize, String)>,
     /// further single edits: (line, kind, byte start, byte end); kind 0 = the file ends in the middle of the line (at
-    /// byte start), 1 = the text of an XML element emptied, 2 = an XML attribute removed
+    /// byte start), 1 = the text of an XML element emptied, 2 = an XML attribute removed, 3 = the line loses its second half
+    /// (the file goes on)
     extras: Vec<(usize, u8, usize, usize)>,
 }
 
-const EXTRA_KINDS: [&str; 3] = ["truncate-midline", "xml-empty-text", "xml-remove-attribute"];
+const EXTRA_KINDS: [&str; 4] = ["truncate-midline", "xml-empty-text", "xml-remove-attribute", "cut-line-midway"];
 
 const NUM_REPL: [&str; 5] = ["abc", "1e39", "-1", "99999999", "0"];
 
@@ -210,6 +211,7 @@ impl FileCases {
                     cut += 1;
                 }
                 extras.push((li, 0u8, cut, cut));
+                extras.push((li, 3u8, cut, l.len()));
             }
             if fmt == Fmt::Ctehexml && !(li >= bdl_range.0 && li < bdl_range.1) {
                 if let (Some(a), Some(b)) = (l.find('>'), l.rfind("</")) {
@@ -502,6 +504,38 @@ pub fn run(ctx: &Ctx) -> i32 {
                     }
                 }
             }
+            // damage next to text that is not ASCII (error messages quote what they could not read): for every block of
+            // every project file whose header or first accented line holds a non-ASCII letter, the header line and that
+            // line are deleted, and the file is cut in the middle of each of them - on every 3rd such block
+            let mut near = 0u64;
+            for (fi, f) in st.files.iter().enumerate() {
+                if core_files.contains(&fi) || !matches!(f.fmt, Fmt::Ctehexml | Fmt::Cte) {
+                    continue;
+                }
+                let n = f.lines.len() as u64;
+                let extras_base = st.offsets[fi] + 3 * n + f.blocks.len() as u64 + f.refs.len() as u64 + (NUM_REPL.len() * f.nums.len()) as u64 + f.lits.len() as u64;
+                let mid: BTreeMap<usize, u64> = f.extras.iter().enumerate().filter(|(_, e)| e.1 == 0).map(|(k, e)| (e.0, k as u64)).collect();
+                let half: BTreeMap<usize, u64> = f.extras.iter().enumerate().filter(|(_, e)| e.1 == 3).map(|(k, e)| (e.0, k as u64)).collect();
+                for (bi, (a, b)) in f.blocks.iter().enumerate() {
+                    let Some(l) = (*a..=*b).find(|l| !f.lines[*l].is_ascii()) else { continue };
+                    near += 1;
+                    if (near + ctx.seed) % 3 != 0 {
+                        continue;
+                    }
+                    let _ = bi;
+                    for line in [*a, l] {
+                        idxs.push(st.offsets[fi] + line as u64); // delete line
+                        if let Some(k) = mid.get(&line) {
+                            idxs.push(extras_base + k); // file ends in the middle of the line
+                        }
+                        if let Some(k) = half.get(&line) {
+                            idxs.push(extras_base + k); // the line loses its second half, the file goes on
+                        }
+                    }
+                }
+            }
+            idxs.sort();
+            idxs.dedup();
         }
     }
     let tally = Mutex::new((0u64, 0u64, 0u64, BTreeMap::<String, u64>::new())); // ok, err, panic, by edit kind
@@ -556,7 +590,7 @@ pub fn run(ctx: &Ctx) -> i32 {
     ctx.sample(json!({"kind": k1, "case": d1}));
     ctx.finish(
         "fault_enumeration",
-        &format!("every single-edit corruption {{delete line, duplicate line, truncate after line, truncate in the middle of the line}} of every line, {{element text emptied, attribute removed}} for every element / attribute of the XML part, {{remove block}} for every BDL block, {{rename reference}} for every reference occurrence, every numeric token x {{abc, 1e39, -1, 99999999}} of every shipped project file (12 .ctehexml, 56 .cte, 6 KyG, 7 .tbl: {} damaged files); thorough runs all of them, quick runs every edit of the smallest file of each format (deterministic core) plus the slice i = VERIF_SEED mod {} of the rest; each damaged text goes through ctehexml::parse + cached catalog + Model::try_from (resp. Data::new, kyg::parse, tbl::parse) in a supervised worker (15 s watchdog, 4 GiB, panic-site capture); non-trivial = the damage is noticed (error or panic)", total, stride),
+        &format!("every single-edit corruption {{delete line, duplicate line, truncate after line, truncate in the middle of the line, cut the line midway}} of every line, {{element text emptied, attribute removed}} for every element / attribute of the XML part, {{remove block}} for every BDL block, {{rename reference}} for every reference occurrence, every numeric token x {{abc, 1e39, -1, 99999999}} of every shipped project file (12 .ctehexml, 56 .cte, 6 KyG, 7 .tbl: {} damaged files); thorough runs all of them, quick runs every edit of the smallest file of each format (deterministic core) plus the slice i = VERIF_SEED mod {} of the rest, plus - for every 3rd block that holds a non-ASCII letter - the deletion of its header line and of its first such line, the file cut in the middle of each, and each of them cut midway; each damaged text goes through ctehexml::parse + cached catalog + Model::try_from (resp. Data::new, kyg::parse, tbl::parse) in a supervised worker (15 s watchdog, 4 GiB, panic-site capture); non-trivial = the damage is noticed (error or panic)", total, stride),
         ctx.tier == Tier::Thorough,
         json!({"space_size": total}),
     )
